@@ -3,14 +3,21 @@ package main
 // C09 - an auth verdict depends only on the event and the state it needs.
 //   c09     : Checker.tla check sequences replayed through ONE real allowerContext (overlay accessor
 //             VerifChecker, driven exactly as state resolution drives it) and through fresh Allowed().
+//             A step's create / power-levels / join-rules event is realised under the event ID its tag gives; where the
+//             step says the provider holds the REDACTED copy, the copy is made by the library (RedactEventJSON loaded
+//             under the same ID, PDU.Redact() where the ID survives it), so two steps can hold different objects, with
+//             different contents, under one event ID.  Realisations: chosen IDs; natural (hash) IDs with PDU.Redact()
+//             for room versions 3+; sender keys in the pseudo-ID room version.
 //   c09meta : metamorphic variants of single Auth.tla scenarios: provider insertion order, un-needed state
 //             added / removed (the needed set is what StateNeededForAuth names), repeated evaluation, and
-//             the auth events AddAuthEvents selects for an equivalent new event.
+//             the auth events AddAuthEvents selects for an equivalent new event.  Records marked idmode=pseudo
+//             are realised with sender keys and a key -> user mapping (c09pseudo.go).
 
 import (
 	"encoding/json"
 	"fmt"
 	"sort"
+	"strings"
 	"time"
 
 	gmsl "github.com/matrix-org/gomatrixserverlib"
@@ -24,6 +31,9 @@ type c09Step struct {
 	CTag int      `json:"ctag"`
 	PTag int      `json:"ptag"`
 	JTag int      `json:"jtag"`
+	CRed bool     `json:"cred"` // the provider holds the redacted copy of the create / power-levels / join-rules event
+	PRed bool     `json:"pred"`
+	JRed bool     `json:"jred"`
 	Want bool     `json:"want"`
 }
 
@@ -47,53 +57,144 @@ func c09Replay(i int, raw json.RawMessage, seed int) Result {
 		panic(err)
 	}
 	variant := seed + i
-	// one object per distinct event (same ID and JSON => same PDU pointer), as resolved state events are
-	// the same objects from one check to the next inside state resolution
+	var names []int
+	anyRedactedPLJR := false
+	for _, s := range sq.Steps {
+		names = append(names, s.N)
+		anyRedactedPLJR = anyRedactedPLJR || s.PRed || s.JRed
+	}
+	realisations := []string{"chosen-ids"}
+	if anyRedactedPLJR && !isFormatV1(sq.Ver) {
+		// the event ID of room versions 3+ is a hash of the redacted form: an event parsed without a given ID and its
+		// PDU.Redact() copy share it
+		realisations = append(realisations, "natural-ids")
+	}
+	if sq.Ver == pseudoIDVersion {
+		realisations = append(realisations, "pseudo-ids")
+	}
+	for _, how := range realisations {
+		if r := c09ReplayAs(&sq, names, variant, how); !r.OK {
+			return r
+		}
+	}
+	return Result{OK: true, NT: fmt.Sprintf("%s|%v|%s", sq.Ver, names, strings.Join(realisations, "+"))}
+}
+
+// c09Held gives the events the provider holds in one step: the concretiser's events, with the redacted copies the
+// step asks for in place of the originals.
+func c09Held(ver string, all []gmsl.PDU, s *c09Step, how string) (state []gmsl.PDU, marks []string) {
+	verImpl := gmsl.MustGetRoomVersion(gmsl.RoomVersion(ver))
+	for _, p := range all {
+		red, cached := false, false
+		if p.StateKeyEquals("") {
+			switch p.Type() {
+			case "m.room.create":
+				red, cached = s.CRed, true
+			case "m.room.power_levels":
+				red, cached = s.PRed, true
+			case "m.room.join_rules":
+				red, cached = s.JRed, true
+			}
+		}
+		mark := ""
+		var err error
+		switch {
+		case how == "natural-ids" && cached && p.Type() != "m.room.create":
+			// (the create event keeps its chosen ID: other events and, in room version 12, the room ID refer to it)
+			if p, err = verImpl.NewEventFromTrustedJSON(p.JSON(), false); err != nil {
+				panic(err)
+			}
+			if red {
+				p.Redact()
+				mark = "redacted"
+			}
+		case red && isFormatV1(ver):
+			// event_id is one of the keys redaction keeps
+			if p, err = verImpl.NewEventFromTrustedJSON(p.JSON(), false); err != nil {
+				panic(err)
+			}
+			p.Redact()
+			mark = "redacted"
+		case red:
+			// what a server holds after redacting an event it stores: the redacted JSON under the event's ID
+			rj, err := verImpl.RedactEventJSON(p.JSON())
+			if err != nil {
+				panic(err)
+			}
+			if p, err = verImpl.NewEventFromTrustedJSONWithEventID(p.EventID(), rj, true); err != nil {
+				panic(err)
+			}
+			mark = "redacted"
+		}
+		state = append(state, p)
+		marks = append(marks, mark)
+	}
+	return state, marks
+}
+
+func c09ReplayAs(sq *c09Seq, names []int, variant int, how string) Result {
+	// one object per distinct event (same ID, same redaction state and same JSON => same PDU pointer), as resolved state
+	// events are the same objects from one check to the next inside state resolution
 	objects := map[string]gmsl.PDU{}
-	intern := func(p gmsl.PDU) gmsl.PDU {
-		k := p.EventID() + "\x00" + string(p.JSON())
+	intern := func(p gmsl.PDU, mark string) gmsl.PDU {
+		k := p.EventID() + "\x00" + mark + "\x00" + string(p.JSON())
 		if q, ok := objects[k]; ok {
 			return q
 		}
 		objects[k] = p
 		return p
 	}
-	var checker *gmsl.VerifChecker
-	var names []int
-	for _, s := range sq.Steps {
-		names = append(names, s.N)
+	querier := spec.UserIDForSender(identityQuerier)
+	if how == "pseudo-ids" {
+		querier = pseudoQuerier
 	}
-	for k, s := range sq.Steps {
+	var checker *gmsl.VerifChecker
+	for k := range sq.Steps {
+		s := &sq.Steps[k]
 		sc := &authScenario{Ver: sq.Ver, St: s.St, Ev: s.Ev, Want: s.Want, CTag: s.CTag, PTag: s.PTag, JTag: s.JTag, Variant: &variant}
 		c, err := concretise(sc, variant)
 		if err != nil {
 			panic(fmt.Sprintf("concretise: %v", err))
 		}
-		state := make([]gmsl.PDU, len(c.All))
-		for j, p := range c.All {
-			state[j] = intern(p)
+		all, event := c.All, c.Event
+		if how == "pseudo-ids" {
+			all, event = pseudoRealiseAll(all, variant%2 == 0), pseudoRealise(event, variant%2 == 0)
+		}
+		held, marks := c09Held(sq.Ver, all, s, how)
+		state := make([]gmsl.PDU, len(held))
+		for j, p := range held {
+			state[j] = intern(p, marks[j])
 		}
 		if checker == nil {
-			checker = gmsl.NewVerifChecker(identityQuerier, c.Event.RoomID())
+			checker = gmsl.NewVerifChecker(querier, event.RoomID())
 		}
-		gotReused := checker.Check(state, c.Event) == nil
+		gotReused := checker.Check(state, event) == nil
 		fresh, err := gmsl.NewAuthEvents(state)
 		if err != nil {
 			panic(err)
 		}
-		gotFresh := gmsl.Allowed(c.Event, fresh, identityQuerier) == nil
+		gotFresh := gmsl.Allowed(event, fresh, querier) == nil
 		if gotReused != s.Want || gotFresh != s.Want {
 			prev := "first"
 			if k > 0 {
 				prev = fmt.Sprint(names[:k])
 			}
+			copies := ""
+			for _, f := range []struct {
+				on   bool
+				name string
+			}{{s.CRed, "create"}, {s.PRed, "power-levels"}, {s.JRed, "join-rules"}} {
+				if f.on {
+					copies += ", the provider holds the redacted copy of the " + f.name + " event"
+				}
+			}
 			return Result{OK: false, Key: fmt.Sprintf("C09/sequence/step=%d/model=%v/reused=%v/fresh=%v", s.N, s.Want, gotReused, gotFresh),
 				Want: s.Want, Got: map[string]bool{"reused": gotReused, "fresh": gotFresh},
-				What: fmt.Sprintf("check sequence %v in room version %s: step %d (pool entry %d, after %s, %s) - specification says allowed=%v, reused checker says %v, fresh Allowed says %v",
-					names, sq.Ver, k+1, s.N, prev, scenarioKey(sc), s.Want, gotReused, gotFresh)}
+				What: fmt.Sprintf("check sequence %v in room version %s (%s): step %d (pool entry %d, after %s, %s; event IDs create#%d power-levels#%d join-rules#%d%s) - specification says allowed=%v, reused checker says %v, fresh Allowed says %v",
+					names, sq.Ver, how, k+1, s.N, prev, scenarioKey(sc), s.CTag, s.PTag, s.JTag, copies, s.Want, gotReused, gotFresh)}
 		}
 	}
-	return Result{OK: true, NT: fmt.Sprintf("%s|%v", sq.Ver, names)}
+	return Result{OK: true}
 }
 
 func c09Meta(i int, raw json.RawMessage, seed int) Result {
@@ -101,10 +202,31 @@ func c09Meta(i int, raw json.RawMessage, seed int) Result {
 	if err := json.Unmarshal(raw, &sc); err != nil {
 		panic(err)
 	}
+	var mode struct {
+		IDMode string `json:"idmode"`
+	}
+	if err := json.Unmarshal(raw, &mode); err != nil {
+		panic(err)
+	}
 	variant := seed + i
 	c, err := concretise(&sc, variant)
 	if err != nil {
 		panic(fmt.Sprintf("concretise: %v", err))
+	}
+	// how the abstract users are realised: user IDs with the identity mapping, or (idmode=pseudo) sender keys with a
+	// key -> user mapping function and, for half of the records, mxid_mapping on the joins
+	querier := spec.UserIDForSender(identityQuerier)
+	realise := func(ps []gmsl.PDU) []gmsl.PDU { return ps }
+	idShape := "user IDs"
+	switch mode.IDMode {
+	case "":
+	case "pseudo":
+		querier = pseudoQuerier
+		realise = func(ps []gmsl.PDU) []gmsl.PDU { return pseudoRealiseAll(ps, variant%2 == 0) }
+		c.All, c.Event = realise(c.All), pseudoRealise(c.Event, variant%2 == 0)
+		idShape = "sender keys (pseudo IDs)"
+	default:
+		panic("unknown idmode " + mode.IDMode)
 	}
 	key := scenarioKey(&sc)
 	verdict := func(state []gmsl.PDU) bool {
@@ -112,11 +234,11 @@ func c09Meta(i int, raw json.RawMessage, seed int) Result {
 		if err != nil {
 			panic(err)
 		}
-		return gmsl.Allowed(c.Event, p, identityQuerier) == nil
+		return gmsl.Allowed(c.Event, p, querier) == nil
 	}
 	fail := func(kind string, got bool) Result {
 		return Result{OK: false, Key: fmt.Sprintf("C09/meta/%s/%s/model=%v", kind, key, sc.Want), Want: sc.Want, Got: got,
-			What: fmt.Sprintf("Allowed verdict changed under %s: specification says %v, variant says %v (%s, room version %s)", kind, sc.Want, got, key, sc.Ver)}
+			What: fmt.Sprintf("Allowed verdict changed under %s: specification says %v, variant says %v (%s, room version %s, %s)", kind, sc.Want, got, key, sc.Ver, idShape)}
 	}
 	// The reference is the code's own verdict on the full state: whether that verdict is the right one is
 	// C07's question; C09 asks that no variant below changes it.
@@ -165,7 +287,7 @@ func c09Meta(i int, raw json.RawMessage, seed int) Result {
 				spec.Prev = []string{ids.id("someprev")}
 				extra = append(extra, spec.mustBuild())
 			}
-			if g := verdict(append(append([]gmsl.PDU{}, c.All...), extra...)); g != sc.Want {
+			if g := verdict(append(append([]gmsl.PDU{}, c.All...), realise(extra)...)); g != sc.Want {
 				return fail("padded", g)
 			}
 		}
@@ -185,7 +307,7 @@ func c09Meta(i int, raw json.RawMessage, seed int) Result {
 			}
 			extra = append(extra, spec.mustBuild())
 		}
-		if g := verdict(extra); g != sc.Want {
+		if g := verdict(realise(extra)); g != sc.Want {
 			return fail("padded-with-another-create-event", g)
 		}
 	}
@@ -219,8 +341,8 @@ func c09Meta(i int, raw json.RawMessage, seed int) Result {
 					panic(err)
 				}
 				// the built event has the same type, sender, state key, content and prev shape, so the same verdict is specified
-				gotSel := gmsl.Allowed(built, ps, identityQuerier) == nil
-				gotFull := gmsl.Allowed(built, full, identityQuerier) == nil
+				gotSel := gmsl.Allowed(built, ps, querier) == nil
+				gotFull := gmsl.Allowed(built, full, querier) == nil
 				if gotSel != gotFull {
 					ids := make([]string, 0, len(want))
 					for id := range want {
@@ -228,7 +350,7 @@ func c09Meta(i int, raw json.RawMessage, seed int) Result {
 					}
 					sort.Strings(ids)
 					return Result{OK: false, Key: fmt.Sprintf("C09/meta/addauthevents/%s", key), Want: gotFull, Got: gotSel,
-						What: fmt.Sprintf("an event built with AddAuthEvents is judged %v against its selected auth events %v but %v against the full state (%s, room version %s)", gotSel, ids, gotFull, key, sc.Ver)}
+						What: fmt.Sprintf("an event built with AddAuthEvents is judged %v against its selected auth events %v but %v against the full state (%s, room version %s, %s)", gotSel, ids, gotFull, key, sc.Ver, idShape)}
 				}
 			}
 		}
